@@ -1964,3 +1964,52 @@ V('c06-twin-cursor-loop', 'C06', 'R6.1', MODUTF7,
                 parts.append(chr(byte))
                 step = 1
                 buf = buf[step:]''', expect='silent')
+V('c18-revert-amp-escape', 'C18', 'R18.6', MODUTF7,
+  '''                ret.append(0x2d)
+                if charpoint == 0x26:
+                    ret.extend(b'&-')
+                else:
+                    ret.append(charpoint)
+                is_usascii = True''', '''                ret.extend((0x2d, charpoint))
+                is_usascii = True''')
+V('c18-amp-unescaped-ascii', 'C18', 'R18.6', MODUTF7,
+  '''            if charpoint == 0x26:
+                ret.extend(b'&-')
+            elif 0x20 <= charpoint <= 0x7e:''', '''            if 0x20 <= charpoint <= 0x7e:''')
+V('c06-revert-selfmove', 'C06', 'R6.8', MAILDIRMBX,
+  '''        async with AsyncExitStack() as stack:
+            await stack.enter_async_context(self.messages_lock.write_lock())
+            if destination is not self:
+                await stack.enter_async_context(
+                    destination.messages_lock.write_lock())
+            try:''', '''        async with (destination.messages_lock.write_lock(),
+                    self.messages_lock.write_lock()):
+            try:''')
+V('c06-selfmove-guard-dropped', 'C06', 'R6.8', MAILDIRMBX,
+  '''            if destination is not self:
+                await stack.enter_async_context(
+                    destination.messages_lock.write_lock())''',
+  '''            await stack.enter_async_context(
+                destination.messages_lock.write_lock())''')
+V('c06-dict-move-nested-locks', 'C06', 'R6.8', DICTMBX,
+  '''            self._mod_sequences.expunge([uid])
+            self._updated.set()
+        async with destination.messages_lock.write_lock():
+            destination._max_uid = dest_uid = destination._max_uid + 1
+            new_msg = Message.copy(message, uid=dest_uid, recent=recent)
+            destination._messages[dest_uid] = new_msg
+            destination._mod_sequences.update([dest_uid])
+            destination._updated.set()
+        return dest_uid
+
+    async def get''', '''            self._mod_sequences.expunge([uid])
+            self._updated.set()
+            async with destination.messages_lock.write_lock():
+                destination._max_uid = dest_uid = destination._max_uid + 1
+                new_msg = Message.copy(message, uid=dest_uid, recent=recent)
+                destination._messages[dest_uid] = new_msg
+                destination._mod_sequences.update([dest_uid])
+                destination._updated.set()
+        return dest_uid
+
+    async def get''')
